@@ -463,4 +463,4 @@ def run(ctx):
             'push, structural rules on the read cursor and on the '
             'order-preserving path of DATA items from Pass1 to the loader. '
             'Does not decide conversion results or the tokenizer on every '
-            'text.')
+            'text. Also: quoted-item regexes exclude only the quote and line ends; every index increment is followed by the end-of-group test.')
